@@ -100,6 +100,25 @@ def update_table(ctx, prog, rule):
                 src_ok = (ev is not None and ed is not None and strip(ev[0]) == ("param", 2) and ev[1] == []
                           and is_self_field(strip(ed[0]), "prototype") and ed[1] == ["data_type"] and elems.same_position(ev, ed))
             got.setdefault(name, {}).setdefault(kind, []).append((holder, fld, conv, src_ok))
+    # every point counts: under `p.name == Name` no trip around the loop over the prototype skips the update (a bound
+    # update that depends on another attribute's value - "invalid points do not count" - makes the bounds inexact)
+    loops_ = natural_loops(f)
+    for name in WANT:
+        g = assume_record_name(f, name, variants, R0)
+        ups_ = [bi for bi, t in f.calls(lambda c, t: c in ("pc_writer::update_min", "pc_writer::update_max")) if bi in reach(g, [0])]
+        heads = [h for h, body in loops_.items() if ups_ and all(u in body for u in ups_)]
+        if not heads:
+            continue
+        h = min(heads, key=lambda x: len(loops_[x]))
+        body = loops_[h]
+        gi = {b: [s_ for s_ in ss if s_ in body] for b, ss in g.items() if b in body}
+        entry = [s_ for s_ in g.get(h, []) if s_ in body]
+        for kind_ in ("update_min", "update_max"):
+            uk = [bi for bi, t in f.calls(lambda c, t: c == "pc_writer::" + kind_) if bi in ups_]
+            skip = find_path(gi, entry, {h}, set(uk) | f.err_exit_blocks())
+            ctx.ob(rule, "bound-always-updated/%s/%s" % (name, kind_), skip is None and bool(uk),
+                   "%s: every trip around the prototype loop with p.name == %s passes %s (no other condition guards it)" % (name, name, kind_),
+                   where="src/pc_writer.rs", path=" -> ".join("bb%d" % b for b in skip[:12]) if skip else None)
     for name, (holder, fmin, fmax, conv) in WANT.items():
         g_ = got.get(name, {})
         ok = g_.get("min") == [(holder, fmin, conv, True)] and g_.get("max") == [(holder, fmax, conv, True)]
@@ -399,8 +418,12 @@ def validation_before_update(ctx, prog, rule):
     f = prog.fn(ADD)
     R = Resolver(f)
     ups = [bi for bi, t in f.calls(lambda c, t: c in ("pc_writer::update_min", "pc_writer::update_max") or c.endswith("VecDeque::<T, A>::push_back"))]
+    # the record counter is state too: a point that is rejected after it was counted leaves recordCount one too high
+    counted = [bi for bi, si, kind, p in field_assignments(f, "pc_writer::PointCloudWriter", "point_count")]
     rej = [bi for bi, t in f.calls(lambda c, t: c == "error::Error::invalid")]
-    after = reach(f.cfg(), [s for u in ups for s in f.cfg().get(u, [])])
+    after = reach(f.cfg(), [s for u in ups for s in f.cfg().get(u, [])] + [s for u in counted for s in f.cfg().get(u, [])])
+    # a rejection in the very block that counted (after the store) does not occur: rejections are calls ending a block
+    ups = ups + counted
     bad = [b for b in rej if b in after]
     ctx.ob(rule, "validate-then-update/add_point", not bad and len(rej) >= 3 and bool(ups),
            "%d rejection sites, %d state updates; rejections reachable after an update: %s" % (len(rej), len(ups), [f.file_line(b) for b in bad]),
